@@ -47,7 +47,7 @@ def jobs(tier):
                     if tier == "quick" and nreq == 2 and k == 2:
                         continue
                     js.append(dict(name="%s:%s:r%d:k%d" % ("poll" if poll else "select", mode, nreq, k), poll=poll, mode=mode, nreq=nreq, k=k,
-                                   P=2 if tier == "thorough" else 1, gran="sync", sizes=(1, 200) if tier == "quick" else SIZES))
+                                   P=2 if (tier == "thorough" and k == 1 and nreq == 1) else 1, gran="sync", sizes=(1, 200) if tier == "quick" else SIZES))
     if tier == "thorough":
         for poll in (False, True):
             js.append(dict(name="%s:write:r1:k1:line" % ("poll" if poll else "select"), poll=poll, mode="write", nreq=1, k=1, P=1, gran="line", sizes=SIZES))
